@@ -1856,7 +1856,12 @@ class Interp:
                 from .libmodels.nx_graph import AbsColl
 
                 return AbsColl(a[0].deps, "tuple")
-            return tuple(it.iterate(a[0])) if a else ()
+            if not a:
+                return ()
+            try:
+                return tuple(it.iterate(a[0]))
+            except _SymbolicIterationNeeded as e:
+                return e.seq  # a tuple of a symbolic number of items: the sequence itself (immutable)
 
         @reg("set")
         def _set(it, a, k):
